@@ -351,6 +351,24 @@ def gen_ops(g, w, n, weights):
     cached_state = {c["cid"]: c["cached"] for c in w["cells"]}
     cur = {c["cid"]: c for c in w["cells"]}
     fell_back = set()
+    def emit_setf(c):
+            w2 = {"nspaces": w["nspaces"], "cells": [cur[i] for i in range(len(cur))], "refs": w["refs"]}
+            nc = dict(c)
+            g.celldef(w2, nc)
+            cur[c["cid"]] = nc
+            how = r.choice(["direct", "fallback"])
+            if nc.get("derived") and how == "fallback" and c["cid"] not in fell_back:
+                nc["body"] = c["far_body"]          # falling back means: the far base's definition takes over
+                cur[c["cid"]] = nc
+                # deleting the near definition re-inherits EVERY derived cells of the space (each is cleared):
+                # redefine the others with their unchanged formulas first, so that this over-clearing is
+                # visible to the model as ordinary formula assignments
+                for d in cur.values():
+                    if d.get("derived") and d["space"] == nc["space"] and d["cid"] != nc["cid"]:
+                        ops.append(["setf", d["cid"], dict(d), "direct"])
+                fell_back.add(c["cid"])
+            ops.append(["setf", c["cid"], nc, how])
+
     for _ in range(n):
         k = r.choice(kinds)
         c = cur[r.randrange(len(w["cells"]))]
@@ -370,22 +388,7 @@ def gen_ops(g, w, n, weights):
         elif k == "clearall":
             ops.append(["clearall", c["cid"]])
         elif k == "setf":
-            w2 = {"nspaces": w["nspaces"], "cells": [cur[i] for i in range(len(cur))], "refs": w["refs"]}
-            nc = dict(c)
-            g.celldef(w2, nc)
-            cur[c["cid"]] = nc
-            how = r.choice(["direct", "fallback"])
-            if nc.get("derived") and how == "fallback" and c["cid"] not in fell_back:
-                nc["body"] = c["far_body"]          # falling back means: the far base's definition takes over
-                cur[c["cid"]] = nc
-                # deleting the near definition re-inherits EVERY derived cells of the space (each is cleared):
-                # redefine the others with their unchanged formulas first, so that this over-clearing is
-                # visible to the model as ordinary formula assignments
-                for d in cur.values():
-                    if d.get("derived") and d["space"] == nc["space"] and d["cid"] != nc["cid"]:
-                        ops.append(["setf", d["cid"], dict(d), "direct"])
-                fell_back.add(c["cid"])
-            ops.append(["setf", c["cid"], nc, how])
+            emit_setf(c)
         elif k == "setcached":
             b = not cached_state[c["cid"]]
             cached_state[c["cid"]] = b
@@ -403,6 +406,14 @@ def gen_ops(g, w, n, weights):
                 continue
             c = r.choice(cands)
             key = g.key(c)
+            if r.random() < 0.4:
+                # ... starting from an element that was an input before its cells was redefined (a stale input
+                # mark must not protect the value computed afterwards: seeded/C02_r2)
+                ops.append(["setv", c["cid"], key, g.val()])
+                emit_setf(c)
+                c = cur[c["cid"]]
+                if len(key) != c["nparams"]:
+                    key = g.key(c)
             ops.append(["eval", c["cid"], key, r.choice(SPELLINGS)])
             for rr in r.sample(w["refs"], min(len(w["refs"]), r.randint(1, 3))):
                 ops.append(["setref", rr["rid"], g.val()])
